@@ -24,6 +24,8 @@ EXPLANATION = (
   " (TRAV) the scan that decides whether tts:extent is written on <tt> reaches the specified styles and the animation steps of every region and body element; has_px overrides compare units with px;"
   " (SPECIAL-emit) a from_model method emits the keyword of a special value only under an identity test with that special value (or when every component is False), never under a truthiness test;"
   " (STATE-alias / STATE-global) no function of the anchored modules mutates a module- or class-level container, rebinds module / class state or mutates a mutable default argument, so a result never depends on earlier calls;"
+  " (FIN-space) xml:space is written exactly where the element's value differs from the inherited one (6 combinations of parent / own values);"
+  " (TAB-has-px, fields) every has_px reads every length-typed field of its value type;"
 )
 RULE_TEXT = "per element kind, per style property, per Enum member, per special-value access, per time syntax sample"
 UNDECIDED = ["snapshot equality after re-reading", "numeric precision of written lengths (:g formatting)", "font-family quoting round trip", "times move by less than one unit and never change order"]
